@@ -210,9 +210,11 @@ def check_mask(case, ctx):
     want = s.X.copy()
     want[:, mask] = np.asarray(mv).astype(want.dtype)
     if not same(arr, want):
-        bad = np.argwhere(arr != want)[0]
-        raise Violation("apply_channel_mask:values", f"{s.ctxt} mask={case['mask']} value={mv}: first diff at (t,c)={bad.tolist()} "
-                        f"got {arr[tuple(bad)]} want {want[tuple(bad)]}")
+        from vlib.core import first_bit_diff
+
+        bad = first_bit_diff(arr, want)
+        where = f"first diff at (t,c)={list(bad)} got {arr[bad]!r} want {want[bad]!r}" if bad is not None else f"shape/dtype {arr.shape}{arr.dtype} vs {want.shape}{want.dtype}"
+        raise Violation("apply_channel_mask:values", f"{s.ctxt} mask={case['mask']} value={mv}: {where}")
     o2 = s.call("apply_channel_mask", lambda: s.reader().apply_channel_mask(mask, mv, s.out("m1.fil"), **s.big))
     require(open(o1, "rb").read() == open(o2, "rb").read(), "apply_channel_mask:gulp-dependent", s.ctxt)
     s.lib_readback("apply_channel_mask", o1, arr)
